@@ -1,0 +1,13 @@
+//go:build verif
+
+package task
+
+import "time"
+
+// Verification hook (build tag "verif" only) for property C15. No behaviour change.
+
+// VerifSetSilencePeriodC15 replaces the period background tasks stay quiet after a prioritized task (the filesystem
+// hard-codes 5 s). To be called before the manager is used.
+func (ts *BackgroundTaskManager) VerifSetSilencePeriodC15(d time.Duration) {
+	ts.prioritizedTaskSilencePeriod = d
+}
